@@ -1,0 +1,210 @@
+//! Verification hooks (only compiled with `--cfg jxl_oxide_verif`).
+//!
+//! H3: read-only view of the frame render handles (state names and execution counters).
+//! H4: a global scheduling-point callback, invoked by the render-handle code before every lock
+//! acquisition, around `Condvar::wait`, before `notify_all` and at `render_op` / composite
+//! entry and exit. The default callback does nothing.
+use std::sync::{
+    Arc, RwLock,
+    atomic::{AtomicUsize, Ordering},
+};
+
+/// Callback type of the scheduling-point hook: `(point, frame index)`.
+pub type SchedFn = dyn Fn(&'static str, usize) + Send + Sync + 'static;
+
+static SCHED: RwLock<Option<Arc<SchedFn>>> = RwLock::new(None);
+
+/// Installs (or with `None` removes) the global scheduling-point callback.
+pub fn set_sched(f: Option<Arc<SchedFn>>) {
+    *SCHED.write().unwrap_or_else(|e| e.into_inner()) = f;
+}
+
+/// Scheduling point. Calls the installed callback, if any.
+#[inline]
+pub fn verif_sched(point: &'static str, frame_idx: usize) {
+    let f = SCHED.read().unwrap_or_else(|e| e.into_inner()).clone();
+    if let Some(f) = f {
+        f(point, frame_idx);
+    }
+}
+
+/// Execution counters of one frame render handle.
+#[derive(Debug, Default)]
+pub struct ExecCounters {
+    /// How many times `render_op` (the actual decode of the frame) was started.
+    pub decode_started: AtomicUsize,
+    /// How many times the composite phase of `RenderedImage::blend` was started.
+    pub composite_started: AtomicUsize,
+    /// Executions (decode or composite) running right now.
+    pub running: AtomicUsize,
+    /// Largest value `running` has had.
+    pub max_running: AtomicUsize,
+}
+
+impl ExecCounters {
+    pub(crate) fn enter(&self, composite: bool) {
+        if composite {
+            self.composite_started.fetch_add(1, Ordering::SeqCst);
+        } else {
+            self.decode_started.fetch_add(1, Ordering::SeqCst);
+        }
+        let now = self.running.fetch_add(1, Ordering::SeqCst) + 1;
+        self.max_running.fetch_max(now, Ordering::SeqCst);
+    }
+
+    pub(crate) fn exit(&self) {
+        self.running.fetch_sub(1, Ordering::SeqCst);
+    }
+
+    pub(crate) fn snapshot(&self) -> ExecSnapshot {
+        ExecSnapshot {
+            decode_started: self.decode_started.load(Ordering::SeqCst),
+            composite_started: self.composite_started.load(Ordering::SeqCst),
+            running: self.running.load(Ordering::SeqCst),
+            max_running: self.max_running.load(Ordering::SeqCst),
+        }
+    }
+}
+
+/// Scope guard used by `RenderedImage::blend`: reports the phase boundaries of the blend as
+/// scheduling points, including exits through `?` (reported when the guard is dropped).
+pub(crate) struct BlendScope<'a> {
+    exec: &'a ExecCounters,
+    idx: usize,
+    phase: u8,
+}
+
+impl<'a> BlendScope<'a> {
+    pub(crate) fn new(exec: &'a ExecCounters, idx: usize) -> Self {
+        Self { exec, idx, phase: 0 }
+    }
+
+    pub(crate) fn preprocess_enter(&mut self) {
+        self.phase = 1;
+        verif_sched("blend:preprocess:enter", self.idx);
+    }
+
+    pub(crate) fn preprocess_exit(&mut self, skip: bool) {
+        self.phase = 0;
+        verif_sched(
+            if skip {
+                "blend:preprocess:exit:skip"
+            } else {
+                "blend:preprocess:exit:ok"
+            },
+            self.idx,
+        );
+    }
+
+    pub(crate) fn composite_enter(&mut self) {
+        self.phase = 2;
+        self.exec.enter(true);
+        verif_sched("blend:composite:enter", self.idx);
+    }
+
+    pub(crate) fn composite_exit_ok(&mut self) {
+        self.phase = 0;
+        self.exec.exit();
+        verif_sched("blend:composite:exit:ok", self.idx);
+    }
+}
+
+impl BlendScope<'_> {
+    /// For error paths that store a final state themselves before returning.
+    #[allow(dead_code)]
+    pub(crate) fn composite_exit_err(&mut self) {
+        self.phase = 0;
+        self.exec.exit();
+        verif_sched("blend:composite:exit:err", self.idx);
+    }
+}
+
+impl Drop for BlendScope<'_> {
+    fn drop(&mut self) {
+        match self.phase {
+            1 => verif_sched("blend:preprocess:exit:err", self.idx),
+            2 => {
+                self.exec.exit();
+                verif_sched("blend:composite:exit:err", self.idx);
+            }
+            _ => {}
+        }
+    }
+}
+
+/// Plain copy of [`ExecCounters`].
+#[derive(Debug, Clone, Copy, PartialEq, Eq)]
+pub struct ExecSnapshot {
+    pub decode_started: usize,
+    pub composite_started: usize,
+    pub running: usize,
+    pub max_running: usize,
+}
+
+/// Static description of one loaded frame, as the render-handle protocol sees it.
+#[derive(Debug, Clone)]
+pub struct FrameInfo {
+    pub idx: usize,
+    pub is_keyframe: bool,
+    /// `frame_type == ReferenceOnly` (such handles survive `reset_cache`).
+    pub reference_only: bool,
+    /// LF frame dependency.
+    pub lf: Option<usize>,
+    /// Reference slots captured when the frame was preserved.
+    pub ref_slots: [Option<usize>; 4],
+}
+
+impl crate::RenderContext {
+    /// Names of the states of all frame render handles, by frame index.
+    ///
+    /// `"Locked"` if the handle's mutex is held by someone right now.
+    pub fn verif_handle_states(&self) -> Vec<&'static str> {
+        if self.narrow_modular() {
+            self.renders_narrow
+                .iter()
+                .map(|h| h.verif_state_name())
+                .collect()
+        } else {
+            self.renders_wide
+                .iter()
+                .map(|h| h.verif_state_name())
+                .collect()
+        }
+    }
+
+    /// Execution counters of all frame render handles, by frame index.
+    pub fn verif_exec_counters(&self) -> Vec<ExecSnapshot> {
+        if self.narrow_modular() {
+            self.renders_narrow
+                .iter()
+                .map(|h| h.verif_exec.snapshot())
+                .collect()
+        } else {
+            self.renders_wide
+                .iter()
+                .map(|h| h.verif_exec.snapshot())
+                .collect()
+        }
+    }
+
+    /// Frame indices of the loaded keyframes.
+    pub fn verif_keyframes(&self) -> Vec<usize> {
+        self.keyframes.clone()
+    }
+
+    /// Dependency structure of the loaded frames.
+    pub fn verif_frame_infos(&self) -> Vec<FrameInfo> {
+        let opt = |x: usize| (x != usize::MAX).then_some(x);
+        self.frames
+            .iter()
+            .zip(&self.frame_deps)
+            .map(|(f, d)| FrameInfo {
+                idx: f.idx,
+                is_keyframe: f.header().is_keyframe(),
+                reference_only: f.header().frame_type == jxl_frame::header::FrameType::ReferenceOnly,
+                lf: opt(d.lf),
+                ref_slots: d.ref_slots.map(opt),
+            })
+            .collect()
+    }
+}
